@@ -314,32 +314,38 @@ pub fn ref_bbox(ty: Ty, parts: &[Part]) -> Option<BBox> {
 }
 
 /// Exact signed "shoelace" sum  Σ (x1-x0)(y1+y0)  (in units of 2^-16) for rings whose coordinates are
-/// dyadic rationals k·2^-8 small enough that the same sum evaluated in f64 — term by term, in any
-/// order — is exact (every partial sum below 2^53 units). `None` outside that domain.
+/// dyadic rationals k·2^-8, provided the same sum evaluated in f64 edge by edge, in ring order — which
+/// is how the library classifies a ring — is exact: every coordinate, every difference, every sum
+/// y1+y0, every product and every partial sum is an integer below 2^53 units. `None` outside that
+/// domain (there the floating-point classification has no exact meaning to test against).
 /// Positive = clockwise (ESRI outer).
 pub fn exact_area2(pts: &[V]) -> Option<i128> {
+    const LIM: i128 = 1i128 << 52;
     let mut q = Vec::with_capacity(pts.len());
-    let mut maxk: i128 = 1;
     for p in pts {
-        let (a, b) = (dyadic(p[0])?, dyadic(p[1])?);
-        maxk = maxk.max(a.abs()).max(b.abs());
-        q.push((a, b));
-    }
-    let bound = (2 * maxk) * (2 * maxk) * (pts.len() as i128 + 1);
-    if bound >= (1i128 << 52) {
-        return None;
+        q.push((dyadic(p[0])?, dyadic(p[1])?));
     }
     let mut s: i128 = 0;
     for w in q.windows(2) {
-        s += (w[1].0 - w[0].0) * (w[1].1 + w[0].1);
+        let dx = w[1].0 - w[0].0;
+        let sy = w[1].1 + w[0].1;
+        let t = dx * sy;
+        // dx, sy are in units of 2^-8, t and s in units of 2^-16
+        if dx.abs() >= LIM || sy.abs() >= LIM || t.abs() >= LIM {
+            return None;
+        }
+        s += t;
+        if s.abs() >= LIM {
+            return None;
+        }
     }
     Some(s)
 }
 
-/// v·2^8 as an integer if v is a multiple of 2^-8 with |v| ≤ 2^16.
+/// v·2^8 as an integer if v is a multiple of 2^-8 with |v| ≤ 2^24.
 pub fn dyadic(f: F) -> Option<i128> {
     let v = f.v();
-    if !v.is_finite() || v.abs() > 65536.0 {
+    if !v.is_finite() || v.abs() > 16777216.0 {
         return None;
     }
     let s = v * 256.0;
